@@ -3,9 +3,10 @@ open M_c06
 (* One case per line:
    g13 <server> <hs>                          -> g13:<64 hex>   bit m set iff check13 accepts message type m
    g12 <server> <hs>                          -> same line format as h_hs `gate12` (64 flag subsets)
-   stp <18 state fields> ccs | hs <typ> <body> -> <out> <post-state>
-       state: server v13 hs rsec wsec err resumed cauth psk dhe tick status lastccs usingpsk hrr early tickkeys gotcr
-       body:  F | P | N0 | N1 | H12:<resumed psk dhe tick status> | H13:<hrr psk early>
+   g12d <server> <hs>                         -> same for a DTLS session: groups over 16 flag subsets x haveCookie x (lastMsn, message_seq) pairs
+   stp <21 state fields> ccs | hs <typ> <body> <msn> -> <out> <post-state> lm=<lastMsn>   (one [dstep])
+       state: server v13 hs rsec wsec err resumed cauth psk dhe tick status lastccs usingpsk hrr early tickkeys gotcr dtls cookie lastMsn
+       body:  F | P | N0 | N1 | NC (DTLS ClientHello, empty cookie) | H12:<resumed psk dhe tick status> | H13:<hrr psk early>
    lg S <v13> <cauth> <tickkeys> | C <v13> <tick>  then items  C | <typ>:<body>   -> complete=<b> prefix=<b> mode=...   *)
 let bt s = (s = "1")
 let zi s = z_of_int (int_of_string s)
@@ -13,6 +14,7 @@ let bc c = (c = '1')
 
 let body_of s =
   if s = "F" then BFail else if s = "P" then BPlain else if s = "N0" then BFin false else if s = "N1" then BFin true
+  else if s = "NC" then BHelloNoCookie
   else if String.length s >= 9 && String.sub s 0 4 = "H12:" then BHello12 (bc s.[4], bc s.[5], bc s.[6], bc s.[7], bc s.[8])
   else if String.length s >= 7 && String.sub s 0 4 = "H13:" then BHello13 (bc s.[4], bc s.[5], bc s.[6])
   else BFail
@@ -20,13 +22,14 @@ let body_of s =
 let mkst a i = { server = bt a.(i); v13 = bt a.(i+1); hs = zi a.(i+2); rsec = bt a.(i+3); wsec = bt a.(i+4); err = bt a.(i+5);
                  resumed = bt a.(i+6); cauth = bt a.(i+7); psk = bt a.(i+8); dhe = bt a.(i+9); tick = zi a.(i+10); status = bt a.(i+11);
                  lastccs = bt a.(i+12); usingpsk = bt a.(i+13); hrr = bt a.(i+14); early = bt a.(i+15); tickkeys = bt a.(i+16);
-                 gotcr = bt a.(i+17); acc = []; tr = []; snap = [] }
+                 gotcr = bt a.(i+17); dtls = bt a.(i+18); cookie = bt a.(i+19); acc = []; tr = []; snap = [] }
 let show_out o = match o with
   | OFatal d -> Printf.sprintf "Fatal:%d" (int_of_z d) | OFail -> "Fail" | OAccept r -> Printf.sprintf "Accept:%d" (b2i r)
   | OWarn d -> Printf.sprintf "Warn:%d" (int_of_z d) | OIgnore -> "Ignore" | ORefuse -> "Refuse"
-let show_st s = Printf.sprintf "v=%d hs=%d R=%d W=%d E=%d x=%d%d%d%d tk=%d sr=%d lc=%d y=%d%d%d%d"
+  | ODrop r -> Printf.sprintf "Drop:%d" (b2i r) | OHvr -> "Hvr"
+let show_st s = Printf.sprintf "v=%d hs=%d R=%d W=%d E=%d x=%d%d%d%d tk=%d sr=%d lc=%d y=%d%d%d%d ck=%d"
   (b2i s.v13) (int_of_z s.hs) (b2i s.rsec) (b2i s.wsec) (b2i s.err) (b2i s.resumed) (b2i s.cauth) (b2i s.psk) (b2i s.dhe)
-  (int_of_z s.tick) (b2i s.status) (b2i s.lastccs) (b2i s.usingpsk) (b2i s.hrr) (b2i s.early) (b2i s.gotcr)
+  (int_of_z s.tick) (b2i s.status) (b2i s.lastccs) (b2i s.usingpsk) (b2i s.hrr) (b2i s.early) (b2i s.gotcr) (b2i s.cookie)
 
 let fabricate role hsv fb =
   let tk = (fb lsr 3) land 3 in
@@ -35,7 +38,14 @@ let fabricate role hsv fb =
     tick = (if tk = 0 then z_of_int (-1) else if tk = 1 then h_SESS_TICKET_STATE_INIT else if tk = 2 then h_SESS_TICKET_STATE_RECVD_EXT
             else h_SESS_TICKET_STATE_SENT_TICKET);
     status = false; lastccs = false; usingpsk = false; hrr = false; early = false; tickkeys = false; gotcr = false;
-    acc = []; tr = []; snap = [] }
+    dtls = false; cookie = false; acc = []; tr = []; snap = [] }
+
+(* DTLS sweep groups: flag subset index k (bits: 1 PSK, 2 DHE, 4 ticket RECVD_EXT (else INIT), 8 CLIENT_AUTH), haveCookie, (lastMsn, msn) *)
+let dtls_pairs = [(-1, 0); (-1, 1); (0, 0); (0, 1); (0, 2); (2, 0); (2, 1); (2, 2); (2, 3); (2, 4)]
+let fabricate_d role hsv k hc =
+  { (fabricate role hsv 0) with psk = (k land 1 <> 0); dhe = (k land 2 <> 0);
+    tick = (if k land 4 <> 0 then h_SESS_TICKET_STATE_RECVD_EXT else h_SESS_TICKET_STATE_INIT);
+    cauth = (k land 8 <> 0); dtls = true; cookie = (hc = 1) }
 
 let show_kex k = match k with KexRSA -> "rsa" | KexECDHE -> "ecdhe" | KexPSK -> "psk" | KexDHEPSK -> "dhepsk"
 let show_res r = match r with ResNone -> "none" | ResYes -> "yes" | ResMaybe -> "maybe"
@@ -70,21 +80,55 @@ let () = iter_lines (fun l ->
     done;
     Buffer.contents all
   end
+  else if a.(0) = "g12d" then begin
+    let role = int_of_string a.(1) and hsv = int_of_string a.(2) in
+    let all = Buffer.create 65536 in
+    for k = 0 to 15 do for hc = 0 to 1 do
+      List.iter (fun (last, msn) ->
+        let s = fabricate_d role hsv k hc in
+        let cl = classify (z_of_int last) (z_of_int msn) in
+        let b = Buffer.create 256 in
+        let u = ref 0 and n = ref 0 and p = ref 0 and o = ref 0 in
+        let code = Array.make 256 "" in
+        for t = 0 to 255 do
+          match gate12d s (z_of_int t) cl with
+          | GRej d -> if int_of_z d = 10 then incr u else begin incr o; code.(t) <- Printf.sprintf "r%d" (int_of_z d) end
+          | GNoReneg -> incr n; code.(t) <- "n"
+          | GIgn -> incr o; code.(t) <- "f"
+          | GDrop r -> incr o; code.(t) <- (if r then "x" else "f")
+          | GPass s1 -> incr p; code.(t) <- Printf.sprintf "p%d" (int_of_z s1.hs)
+        done;
+        let t = ref 0 in
+        while !t < 256 do
+          if code.(!t) = "" then incr t
+          else begin
+            let e = ref !t in
+            while !e + 1 < 256 && code.(!e + 1) = code.(!t) do incr e done;
+            if !e > !t then Buffer.add_string b (Printf.sprintf "%d-%d:%s " !t !e code.(!t)) else Buffer.add_string b (Printf.sprintf "%d:%s " !t code.(!t));
+            t := !e + 1
+          end
+        done;
+        Buffer.add_string all (Printf.sprintf "g12d:%su=%d n=%d p=%d o=%d ; " (Buffer.contents b) !u !n !p !o)) dtls_pairs
+    done done;
+    Buffer.contents all
+  end
   else if a.(0) = "stp" then begin
     let s = mkst a 1 in
-    let i = if a.(19) = "ccs" then ICcs else IHs { m_typ = zi a.(20); m_body = body_of a.(21) } in
-    let (s', o) = step s i in
-    show_out o ^ " " ^ show_st s'
+    let last = zi a.(21) in
+    let i = if a.(22) = "ccs" then DCcs else DHs (zi a.(23), body_of a.(24), zi a.(25)) in
+    let (d', o) = dstep { d_core = s; d_last = last } i in
+    show_out o ^ " " ^ show_st d'.d_core ^ Printf.sprintf " lm=%d" (int_of_z d'.d_last)
   end
   else if a.(0) = "lg" then begin
-    let (c, k) = if a.(1) = "S" then (Server (bt a.(2), bt a.(3), bt a.(4)), 5) else (Client (bt a.(2), zi a.(3)), 4) in
+    let (c, k) = if a.(1) = "S" then (Server (bt a.(2), bt a.(3), bt a.(4)), 5) else if a.(1) = "C" then (Client (bt a.(2), zi a.(3)), 4)
+                 else if a.(1) = "DS" then (DServer (bt a.(2)), 3) else (DClient (zi a.(2)), 3) in
     let items = ref [] in
     for j = Array.length a - 1 downto k do
       let t = a.(j) in
       if t = "C" then items := MCcs :: !items
       else begin
         let idx = String.index t ':' in
-        items := MHs { m_typ = zi (String.sub t 0 idx); m_body = body_of (String.sub t (idx + 1) (String.length t - idx - 1)) } :: !items
+        items := MHs { m_typ = zi (String.sub t 0 idx); m_body = body_of (String.sub t (idx + 1) (String.length t - idx - 1)); m_cls = MExp } :: !items
       end
     done;
     let md = (match negotiated c !items with
